@@ -270,7 +270,10 @@ class FastaIndex():
         if self.mode == 'db':
             self.db['header'] = header
         elif force:
-            self.db.update(adddata, header=header)
+            # BinarySearchFile.update() prepends headerstart to the header and write() prepends it again,
+            # after which _read_header() takes the duplicated start line for the path/file list of a reopened index;
+            # merge the old and new records here and write the file once
+            self.db.write(self.db.read() + adddata, header=header)
         else:
             self.db.write(adddata, header=header)
 
